@@ -220,7 +220,7 @@ Definition op_wf (o : op) : Prop :=
   end.
 
 Definition erase (o : obs) : obs :=
-  match o with BCompact _ => BNone | BCompactErr _ => BNone | x => x end.
+  match o with BCompact _ => BNone | BCompactErr _ => BNone | BStat _ => BNone | x => x end.
 
 Lemma R_put x y k v : wf_bytes k = true -> R x y -> R (st_put x k v) (swrite y [WPut k v]).
 Proof.
@@ -236,7 +236,7 @@ Lemma step1_refines ideal r sr o : RS r sr -> op_wf o ->
   map erase (snd (run_op1 ideal r o)) = snd (spec_run_op1 sr o).
 Proof.
   intros [HR HB HS HL] W.
-  destruct o as [h k v|h k|h k|h k|h p s0|b h|b k v|b k|b|b|b|d|d|d|h|i k|i k|i p s0|h a l|h a l|i h p s0|i n|i|d];
+  destruct o as [h k v|h k|h k|h k|h p s0|b h|b k v|b k|b|b|b|d|d|d|h|i k|i k|i p s0|h a l|h a l|i h p s0|i n|i|h pr|d];
     cbn [op_wf] in W.
   - (* put *) destruct W as [Wh Wk]. cbn. split; [|reflexivity].
     assert (K : sk (h_upd h (fun x => st_put x k v) (r_store r)) (r_store r))
@@ -350,6 +350,7 @@ Proof.
   - (* live iterator: next *) cbn. rewrite HL. unfold live_next.
     destruct (nth i (ss_lives sr) None); cbn; (split; [constructor; cbn; auto|reflexivity]).
   - (* live iterator: release *) cbn. split; [|reflexivity]. constructor; cbn; auto. now rewrite HL.
+  - (* stat *) cbn. split; [constructor; auto|reflexivity].
   - (* init *) cbn. split; [|reflexivity].
     assert (K : sk (st_upd d st_init (r_store r)) (r_store r)) by (apply sk_upd, sk_init).
     constructor; cbn; auto.
